@@ -30,8 +30,13 @@ def go_env(extra=None):
 
 
 def run(cmd, cwd=None, env=None, timeout=600, inp=None, check=False):
-    p = subprocess.run(cmd, cwd=cwd, env=env, timeout=timeout, input=inp,
-                       stdout=subprocess.PIPE, stderr=subprocess.PIPE)
+    try:
+        p = subprocess.run(cmd, cwd=cwd, env=env, timeout=timeout, input=inp,
+                           stdout=subprocess.PIPE, stderr=subprocess.PIPE)
+    except subprocess.TimeoutExpired:
+        # a loaded machine must not turn scheduling delay into a verdict: one retry with a 3x budget
+        p = subprocess.run(cmd, cwd=cwd, env=env, timeout=timeout * 3, input=inp,
+                           stdout=subprocess.PIPE, stderr=subprocess.PIPE)
     if check and p.returncode != 0:
         raise RuntimeError("command failed: %s\n%s\n%s" % (cmd, p.stdout.decode(errors="replace")[-4000:], p.stderr.decode(errors="replace")[-4000:]))
     return p
